@@ -496,7 +496,8 @@ Proof.
     + inversion H; subst. apply ev_proj_self; assumption.
     + destruct (nth_error h o0) eqn:E2; [|discriminate].
       destruct (nth_error (c_refs c0) c) eqn:E3; inversion H; subst.
-      eapply ev_proj_ref; eauto. eapply nth_error_In; eauto.
+      * eapply ev_proj_ref; eauto. eapply nth_error_In; eauto.
+      * apply ev_proj_self; assumption.
 Qed.
 
 Lemma srun_sound_l : forall fuel args p sc st sc' st',
